@@ -16,6 +16,7 @@ import (
 	"sync/atomic"
 	"testing"
 	"time"
+	"verif/harness/watch"
 
 	"github.com/rs/zerolog"
 	zlog "github.com/rs/zerolog/log"
@@ -48,6 +49,7 @@ type Workload struct {
 	// either written whole (as if alone) or not at all, whenever the switch happens
 	Filter  bool      `json:"filtering_togglers,omitempty"`
 	Trigger bool      `json:"trigger_writer,omitempty"` // the destination sits behind a *TriggerLevelWriter that lets everything through (its own mutex covers WriteLevel only)
+	Hold    bool      `json:"trigger_holds,omitempty"`  // ... which holds debug lines until the first line at warn or above (or the Trigger() call the harness makes at the end)
 	Plain   int       `json:"plain_writers,omitempty"`  // with SyncWriter: goroutines that use the writer as a plain io.Writer (the standard library logger), 3 lines each
 	Double  bool      `json:"double_sync,omitempty"`    // with SyncWriter: some loggers write through SyncWriter(dst), the others through SyncWriter(SyncWriter(dst)), the same inner wrapper
 	Closer  bool      `json:"closer,omitempty"`         // with SyncWriter: another goroutine calls Close on it meanwhile (as Logger.Fatal or a shutdown path would); Close is a call on the wrapped writer too
@@ -60,6 +62,7 @@ type checkWriter struct {
 	console bool
 	consNew bool
 	trigger bool
+	hold    bool
 	mode    string
 	mu      sync.Mutex
 	got     [][]byte
@@ -120,6 +123,7 @@ func (w *checkWriter) Close() error {
 }
 
 var lastSync io.Writer
+var lastTrigger *zerolog.TriggerLevelWriter
 
 type hook struct{}
 
@@ -162,7 +166,12 @@ func loggers(w *checkWriter, syncW bool, double ...bool) []*zerolog.Logger {
 		}
 	}
 	if w.trigger && !w.console {
-		dst = &zerolog.TriggerLevelWriter{Writer: dst, ConditionalLevel: zerolog.Level(-100), TriggerLevel: zerolog.Level(-100)}
+		tlw := &zerolog.TriggerLevelWriter{Writer: dst, ConditionalLevel: zerolog.Level(-100), TriggerLevel: zerolog.Level(-100)}
+		if w.hold {
+			tlw.ConditionalLevel, tlw.TriggerLevel = zerolog.DebugLevel, zerolog.WarnLevel
+		}
+		lastTrigger = tlw
+		dst = tlw
 	}
 	if syncW {
 		lastSync = zerolog.SyncWriter(dst)
@@ -203,8 +212,7 @@ func emit(ls []*zerolog.Logger, c Chain) {
 	if c.Logger == 3 {
 		old := zlog.Logger
 		_ = old
-		e := lp.Start(&zlog.Logger, c.Ev)
-		lp.Finish(lp.ApplyEvent(e, c.Ev.Ops), c.Ev)
+		lp.Emit(&zlog.Logger, c.Ev)
 		return
 	}
 	switch c.Update {
@@ -213,11 +221,25 @@ func emit(ls []*zerolog.Logger, c Chain) {
 	case 2:
 		ls[5].UpdateContext(func(x zerolog.Context) zerolog.Context { return x.Reset().Str("region", "eu-west-1") })
 	}
-	e := lp.Start(ls[c.Logger], c.Ev)
-	lp.Finish(lp.ApplyEvent(e, c.Ev.Ops), c.Ev)
+	lp.Emit(ls[c.Logger], c.Ev)
 }
 
+// run judges one workload; one whose goroutines never come back is judged through package watch: when every
+// goroutine inside the library waits for a lock, nobody is left to release one.
 func run(wl *Workload) (msg string, nontrivial bool) {
+	v := watch.RunAll(60*time.Second, "github.com/rs/zerolog.", func() { msg, nontrivial = runWorkload(wl) })
+	switch {
+	case v.Done:
+		return msg, nontrivial
+	case v.Blocked:
+		return fmt.Sprintf("the workload never finishes: every goroutine inside the library waits in %s (%s)", v.State, v.Stack), true
+	}
+	fmt.Println("VERIF-INCONCLUSIVE: a workload took more than 60 s without every goroutine being blocked on a lock")
+	os.Exit(2)
+	return "", false
+}
+
+func runWorkload(wl *Workload) (msg string, nontrivial bool) {
 	restore := lp.DefaultSettings().Apply()
 	defer restore()
 	// expected: each chain alone
@@ -232,7 +254,7 @@ func run(wl *Workload) (msg string, nontrivial bool) {
 		for _, c := range g {
 			before := len(solo.got)
 			emit(sl, c)
-			discarded := c.Logger == 4 && c.Ev.Method == "debug"
+			discarded := c.Logger == 4 && (c.Ev.Method == "debug" || c.Ev.Method == "print" || c.Ev.Method == "printf" || c.Ev.Method == "println")
 			if discarded && len(solo.got) == before {
 				continue
 			}
@@ -247,7 +269,7 @@ func run(wl *Workload) (msg string, nontrivial bool) {
 		}
 	}
 	// concurrent
-	w := &checkWriter{mode: wl.Writer, gate: make(chan struct{}), console: wl.Console, consNew: wl.ConsNew, trigger: wl.Trigger}
+	w := &checkWriter{mode: wl.Writer, gate: make(chan struct{}), console: wl.Console, consNew: wl.ConsNew, trigger: wl.Trigger, hold: wl.Hold && wl.Trigger}
 	ls := loggers(w, wl.Sync, wl.Double)
 	zlog.Logger = *ls[3]
 	var wg sync.WaitGroup
@@ -323,6 +345,9 @@ func run(wl *Workload) (msg string, nontrivial bool) {
 	wg.Wait()
 	close(stop)
 	tg.Wait()
+	if w.hold && w.trigger && !w.console {
+		lastTrigger.Trigger() // whatever is still held (no line at warn or above came) is released now
+	}
 	zerolog.SetGlobalLevel(zerolog.TraceLevel)
 	zerolog.DisableSampling(false)
 	nontrivial = atomic.LoadInt32(&w.maxIn) >= 2 && crossed
@@ -379,7 +404,11 @@ func genChain(rt *rapid.T, g *lp.G) Chain {
 		if p == 9 {
 			n = 70000
 		}
-		c.Ev.Ops = append(c.Ev.Ops, lp.Op{K: []byte("pad"), V: lp.Val{T: "str", S: bytes.Repeat([]byte("P"), n)}})
+		if lp.Direct(c.Ev.Method) {
+			c.Ev.Msg = append(c.Ev.Msg, bytes.Repeat([]byte("P"), n)...)
+		} else {
+			c.Ev.Ops = append(c.Ev.Ops, lp.Op{K: []byte("pad"), V: lp.Val{T: "str", S: bytes.Repeat([]byte("P"), n)}})
+		}
 	}
 	return c
 }
@@ -398,6 +427,8 @@ func genWorkload(rt *rapid.T, maxG int) *Workload {
 	wl.Closer = wl.Sync && rapid.Bool().Draw(rt, "closer")
 	wl.Double = wl.Sync && rapid.Bool().Draw(rt, "double")
 	wl.Trigger = !wl.Console && rapid.IntRange(0, 2).Draw(rt, "trigger") == 0
+	// (not together with the closer: TriggerLevelWriter.Close gives up the lines it holds, as documented)
+	wl.Hold = wl.Trigger && !wl.Closer && rapid.Bool().Draw(rt, "hold")
 	if wl.Sync && !wl.Console {
 		wl.Plain = rapid.IntRange(0, 2).Draw(rt, "plain")
 	}
